@@ -1067,14 +1067,14 @@ def r_abort(ctx):
         if tag == 'seq':
             # the bound left at a cut-off is the ub of the node popped last (R19.1); a node popped although it is stale (ub <= best_lb) is
             # dropped at once, WITHOUT polling the cutoff — an Err that can leave process_one_node before the staleness test aborts the
-            # search with best_ub = that stale ub < best_lb. Accepted: every Err exit lies behind an edge asserting node.ub > best_lb, or the
+            # search with best_ub = that stale ub < best_lb. Accepted: every Err exit lies behind an edge asserting node.ub > best_lb (or >=), or the
             # abort handler clamps the bound with the incumbent (max(.., best_lb)).
             pb_ = ctx.body(adt, 'process_one_node')
             errs_ = [(bb_, i_) for (bb_, i_, s_) in aggr_assigns(pb_, 'Result', 'Err') if s_['place']['l'] == 0]
             errs_ += [pb_.term_point(bb_) for (bb_, t_) in pb_.calls_to('FromResidual::from_residual', 'from_residual') if not t_['dest']['p'] and t_['dest']['l'] == 0]
             lbp_ = is_lb(F)
             nub_ = lambda t: is_subproblem_field(t, 'ub') and M.is_param(t[1])
-            okg_, cut_, _ = M.guarded(pb_, errs_, lambda atoms, lit: any(M.cmp_matches(a_, nub_, lbp_, '>') for a_ in atoms)) if errs_ else (False, [], [])
+            okg_, cut_, _ = M.guarded(pb_, errs_, lambda atoms, lit: any(M.cmp_matches(a_, nub_, lbp_, '>=') for a_ in atoms)) if errs_ else (False, [], [])
             clamp_ = any(solver_field(d_, 'best_ub') and M.contains(v_, lambda x: isinstance(x, tuple) and x and x[0] == 'max' and any(lbp_(y) for y in x[1]))
                          for (pt_, d_, v_, s_) in writes(asb))
             ctx.check(bool(errs_) and (okg_ or clamp_), 'R05.2', 'seq/no-abort-on-a-stale-node', pb_, pb_.loc(*errs_[0]) if errs_ else pb_.loc(0),
